@@ -937,7 +937,7 @@ void WrErrorString(
     String      ErrStr[4];
     unsigned    ErrStrCount = 0, z;
     char*       p;
-    int         l;
+    int         l, Rest;
     char const* pLeadIn = GNUErrors ? "" : "> > > ";
     FILE*       pErrFile;
     Boolean     ErrorsWrittenToListing = False;
@@ -952,6 +952,21 @@ void WrErrorString(
         l = strlen(p) - 1;
         if ((l >= 0) && (p[l] == ' ')) {
             p[l] = '\0';
+        }
+
+        /* deeply nested macro calls give a position that leaves no room for the
+           message in the buffer: drop as much of its middle as the rest needs
+           (lead-in, column, ": error", number, ": ", message) */
+
+        Rest = strlen(pLeadIn) + (pLineComp ? 12 : 0) + 2
+               + strlen(getmessage(Warning ? Num_WarnName : Num_ErrName)) + strlen(pAdd)
+               + 2 + strlen(pMessage) + 1;
+        l = strlen(p);
+        if ((Rest + 16 < STRINGSIZE) && (l + Rest > STRINGSIZE)) {
+            int Keep = (STRINGSIZE - Rest - 5) / 2;
+
+            memmove(p + Keep + 5, p + l - Keep, Keep + 1);
+            memcpy(p + Keep, " ... ", 5);
         }
         strmaxcat(ErrStr[ErrStrCount], p, STRINGSIZE);
         free(p);
